@@ -7,6 +7,7 @@ import ScionTime.Proofs.NtsReply
 import ScionTime.Model.NtsPool
 import ScionTime.Gen.Nts
 import ScionTime.Gen.Server
+import ScionTime.Gen.Client
 namespace ScionTime.C11
 open ScionTime.Nts ScionTime.NtsPool
 
@@ -392,5 +393,168 @@ example : maxNumCookies 32 124 = 7 ∧ maxNumCookies 37 124 = 6 ∧ replyLen 37 
 
 /-- non-vacuity of `C11_budget_fits` / `C11_budget_maximal` at a long identifier -/
 example : 124 % 4 = 0 ∧ 1 ≤ 2 ∧ 2 ≤ maxNumCookies 600 124 ∧ ntpPacketLen + (4 + pad4 600) + 40 ≤ maxPacketLen := by decide
+
+/-! ### the receive loop of one exchange (client_ip.go / client_scion.go)
+
+The clients look at up to `maxNumRetries + 1` datagrams per exchange. `DecodePacket` appends the
+cleartext cookie fields of a datagram to the packet it is given *while it walks the datagram* —
+before it knows whether a unique identifier or an authenticator follows — and `ProcessResponse`
+stores everything that packet holds once a datagram authenticates. The statements below are about
+the loop as the code has it (`recvLoop`: a packet value of its own per datagram): whatever a
+refused datagram carried has no effect on the pool. -/
+
+/-- `recvLoop` looks at `maxNumRetries + 1` datagrams: the constant of both client functions -/
+theorem C11_pin_maxNumRetries :
+    Gen.Client.maxNumRetriesIP = (maxNumRetries : Int) ∧ Gen.Client.maxNumRetriesSCION = (maxNumRetries : Int) := by decide
+
+/-- `recvLoop` applies `response` — decoding from the empty packet — to every datagram: in both
+    client functions the variable handed to `nts.DecodePacket` is declared inside the body of the
+    receive loop (exported by `harness/extract/x_c11.go`). -/
+theorem C11_pin_recvLoopPacketScope :
+    Gen.Client.ntsRespPacketScopeIP = "loop" ∧ Gen.Client.ntsRespPacketScopeSCION = "loop" := by decide
+
+/-- a datagram the NTS stage refuses (or that makes it crash) leaves the client's state as it was -/
+theorem C11_response_refused_no_trace (A : AEAD) (st : Client) (b : Bytes) (h : (response A st b).2 ≠ .ok ()) :
+    (response A st b).1 = st := by
+  rcases C11_response_stores A st b with ⟨cs, d, _, _, _, hok⟩ | ⟨hst, _⟩
+  · exact absurd hok h
+  · exact hst
+
+/-- **recv_loop_pool.** For every budget, state and sequence of datagrams: either the loop ends
+    with `.ok true` and the pool has grown by exactly the cookies of ONE datagram `b` — those
+    `ProcessResponse` returns for `b` decoded on its own from the empty packet, under the S2C key
+    and the identifier of the outstanding request — every datagram in front of `b` was refused and
+    `b` is within the budget; or nothing at all changed (no datagram was accepted). Nothing else
+    of the client state changes either way. -/
+theorem C11_recv_loop_pool (A : AEAD) (n : Nat) (st : Client) (ds : List Bytes) :
+    (∃ pre b post d cs, ds = pre ++ b :: post ∧ pre.length < n ∧
+        (∀ x ∈ pre, ∃ e, (response A st x).2 = .err e) ∧
+        decodePacket b = .ok d ∧ processResponse A b st.s2c d st.reqId = .ok cs ∧
+        recvLoop A n st ds = ({ st with pool := st.pool ++ cs }, .ok true)) ∨
+    ((recvLoop A n st ds).1 = st ∧ (recvLoop A n st ds).2 ≠ .ok true) := by
+  induction n generalizing ds with
+  | zero => right; simp [recvLoop]
+  | succ n ih =>
+    cases ds with
+    | nil => right; simp [recvLoop]
+    | cons b rest =>
+      rcases C11_response_stores A st b with ⟨cs, d, hd, hp, hpool, hok⟩ | ⟨hst, hne⟩
+      · left
+        refine ⟨[], b, rest, d, cs, rfl, Nat.succ_pos n, by simp, hd, hp, ?_⟩
+        have hr : response A st b = ({ st with pool := st.pool ++ cs }, .ok ()) := by
+          unfold response
+          simp only [hd, Res.bind_ok, hp, storeCookies_foldl]
+        simp only [recvLoop, hr]
+      · cases hr : (response A st b).2 with
+        | ok u => exact absurd (by rw [hr]) hne
+        | err e =>
+          have hstep : recvLoop A (n + 1) st (b :: rest) = recvLoop A n st rest := by
+            have : response A st b = (st, .err e) := Prod.ext hst hr
+            simp only [recvLoop, this]
+          rcases ih rest with ⟨pre, b', post, d, cs, hds, hlen, hpre, hd, hp, hloop⟩ | hno
+          · left
+            refine ⟨b :: pre, b', post, d, cs, by simp [hds], by simp; omega, ?_, hd, hp, by rw [hstep, hloop]⟩
+            intro x hx
+            rcases List.mem_cons.mp hx with rfl | hx
+            · exact ⟨e, hr⟩
+            · exact hpre x hx
+          · right; rw [hstep]; exact hno
+        | panic p =>
+          right
+          have : response A st b = (st, .panic p) := Prod.ext hst hr
+          simp [recvLoop, this]
+        | hang =>
+          right
+          have : response A st b = (st, .hang) := Prod.ext hst hr
+          simp [recvLoop, this]
+
+/-- **recv_junk_prefix.** A refused datagram in front costs one retry and nothing else: the loop
+    continues on the remaining datagrams from the very same state. -/
+theorem C11_recv_junk_prefix (A : AEAD) (n : Nat) (st : Client) (j : Bytes) (ds : List Bytes) (e : Err)
+    (hj : (response A st j).2 = .err e) :
+    recvLoop A (n + 1) st (j :: ds) = recvLoop A n st ds := by
+  have hst : (response A st j).1 = st := C11_response_refused_no_trace A st j (by rw [hj]; simp)
+  have : response A st j = (st, .err e) := Prod.ext hst hj
+  simp only [recvLoop, this]
+
+/-- … so with the clients' budget (`maxNumRetries + 1 = 2`) the history [refused datagram,
+    reply] ends exactly like the reply alone: same pool, same verdict. -/
+theorem C11_recv_junk_then_reply (A : AEAD) (st : Client) (j g : Bytes) (e : Err)
+    (hj : (response A st j).2 = .err e) (u : Unit) (hg : (response A st g).2 = .ok u) :
+    recvLoop A (maxNumRetries + 1) st [j, g] = ((response A st g).1, .ok true) := by
+  rw [show maxNumRetries + 1 = 1 + 1 from rfl, C11_recv_junk_prefix A 1 st j [g] e hj]
+  have : response A st g = ((response A st g).1, .ok u) := Prod.ext rfl hg
+  simp only [recvLoop]
+  rw [this]
+
+/-- **exchange_pool.** One whole exchange from a non-empty pool `c :: rest`: the pool afterwards
+    is `rest` (no reply accepted) or `rest` followed by the cookies of one single datagram of the
+    exchange that authenticates under S2C with the identifier of this request (`copyN 32 rnd`),
+    decoded on its own. In particular its level is `rest.length + cs.length`: with a reply that
+    carries at most one cookie per requested field (`C11_pool_bounds`) never more than eight. -/
+theorem C11_exchange_pool (A : AEAD) (st : Client) (hdr rnd : Bytes) (ds : List Bytes) (c : Bytes) (rest : List Bytes)
+    (hp : st.pool = c :: rest) :
+    (exchange A st hdr rnd ds).1.pool = rest ∨
+    ∃ b ∈ ds, ∃ d cs, decodePacket b = .ok d ∧ processResponse A b st.s2c d (copyN 32 rnd) = .ok cs ∧
+      (exchange A st hdr rnd ds).1.pool = rest ++ cs := by
+  let st1 : Client := { st with pool := rest, reqId := copyN 32 rnd }
+  have hreq : (request A st hdr rnd).1 = st1 := by
+    simp only [request, fetchData, hp]
+    split <;> rfl
+  cases hr : (request A st hdr rnd).2 with
+  | ok req =>
+    have hq : request A st hdr rnd = (st1, .ok req) := Prod.ext hreq hr
+    rcases C11_recv_loop_pool A (maxNumRetries + 1) st1 ds with ⟨pre, b, post, d, cs, hds, _, _, hd, hpr, hloop⟩ | ⟨hst, hne⟩
+    · right
+      refine ⟨b, by simp [hds], d, cs, hd, hpr, ?_⟩
+      simp only [exchange, hq, hloop]
+      rfl
+    · left
+      simp only [exchange, hq]
+      split <;> simp_all <;> rfl
+  | err e =>
+    left
+    have hq : request A st hdr rnd = (st1, .err e) := Prod.ext hreq hr
+    simp only [exchange, hq]
+    rfl
+  | panic p =>
+    left
+    have hq : request A st hdr rnd = (st1, .panic p) := Prod.ext hreq hr
+    simp only [exchange, hq]
+    rfl
+  | hang =>
+    left
+    have hq : request A st hdr rnd = (st1, .hang) := Prod.ext hreq hr
+    simp only [exchange, hq]
+    rfl
+
+/-- level bound of one exchange: a pool of `l ∈ 1..8` cookies and an accepted reply with at most
+    one cookie per requested field (`1 + min (8 − l) 6`, `C11_request_shape`) never exceed eight,
+    whatever was delivered in front of the reply. -/
+theorem C11_exchange_level (l k : Nat) (h1 : 1 ≤ l) (h8 : l ≤ 8) (hk : k ≤ 1 + min (8 - l) 6) :
+    (l - 1) + k ≤ 8 := by omega
+
+/-- a datagram that is nothing but the NTP header and two (bogus) cookie fields — no unique
+    identifier, no authenticator: the demo datagram of the seeded change -/
+def junkTwoCookies : Bytes :=
+  zeros 48 ++ (be16 extCookie ++ be16 28 ++ List.replicate 24 7) ++ (be16 extCookie ++ be16 28 ++ List.replicate 24 7)
+
+/-- a client with two 24-byte cookies left, and the server's reply to its request (identifier
+    `copyN 32 rnd` with `rnd` = 48 zero bytes) carrying one fresh cookie -/
+def sampleClient : Client := { pool := [List.replicate 24 1, List.replicate 24 2], c2s := zeros 32, s2c := zeros 32 }
+def sampleReply : Res Bytes :=
+  newResponsePacket [List.replicate 24 9] (zeros 32) (zeros 32) >>= fun p => encodePacket tagAEAD (zeros 48) p (zeros 16)
+
+set_option maxRecDepth 100000 in
+/-- non-vacuity, and the history of the seeded change in the model: the junk datagram decodes two
+    cookie fields and is refused (no unique identifier); delivered in front of the genuine reply it
+    changes nothing — the pool ends as [second old cookie, the reply's cookie], level 2. -/
+example :
+    (response tagAEAD (request tagAEAD sampleClient (zeros 48) (zeros 48)).1 junkTwoCookies).2 = .err .noUid ∧
+    (sampleReply.bind fun g =>
+      match exchange tagAEAD sampleClient (zeros 48) (zeros 48) [junkTwoCookies, g] with
+      | (st, .ok (_, acc)) => .ok (acc, st.pool)
+      | (_, _) => .err .noAuth) = .ok (true, [List.replicate 24 2, List.replicate 24 9]) := by
+  decide
 
 end ScionTime.C11
